@@ -370,6 +370,6 @@ Definition model_fmt_devsettings : str :=
   repeat 48 W_DEVICE ++ [SEP] ++ fmt_field "version" W_VERSION.
 Definition model_fmt_nameonly : str :=
   s2l "{name}" ++ LIT_VERSION_OPEN ++ fmt_field "version" W_VERSION ++ [LIT_VERSION_CLOSE].
-(* the string constants of cfgid_str and of __str__, as sorted sets *)
+(* the template string constants (those with a replacement field) of cfgid_str and of __str__, as sorted sets *)
 Definition model_cfgidstr_strings : list str := [model_fmt_devsettings; model_fmt_full].
-Definition model_str_strings : list str := [[]; NAME_SEP; model_fmt_nameonly].
+Definition model_str_strings : list str := [model_fmt_nameonly].
